@@ -188,6 +188,11 @@ func genSpec(t *rapid.T) *spec {
 	s.tlsBackend = rapid.IntRange(0, 3).Draw(t, "tlsBackend") == 0
 	if s.method == "POST" || s.method == "PUT" {
 		s.body = rapid.StringMatching(`[a-z]{0,20}`).Draw(t, "body")
+		// a client that announces its body and waits for the go-ahead: the expectation is an
+		// end-to-end header like any other
+		if s.body != "" && rapid.IntRange(0, 2).Draw(t, "expectContinue") == 0 {
+			s.headers = append(s.headers, hdr{"Expect", "100-continue"})
+		}
 	}
 	// response direction
 	for i := rapid.IntRange(0, 3).Draw(t, "nresp"); i > 0; i-- {
